@@ -461,6 +461,20 @@ Definition describe (v : cvalue) : bytes :=
 
 Definition in_range (bits : Z) (z : Z) : bool := (- 2 ^ (bits - 1) <=? z) && (z <? 2 ^ (bits - 1)).
 
+Definition key_type (t : ptype) : option ptype := match t with PType _ k _ _ => k end.
+Definition elem_type (t : ptype) : option ptype := match t with PType _ _ v _ => v end.
+(** the loop over the fields of a struct literal's struct: the field(s) of that name; and [rall]
+    with the function outside the fixpoint (so that it can be used in the nested recursion over
+    values) *)
+Definition fields_named (chk : field -> vr) (name : bytes) : list field -> vr :=
+  fix go (fs : list field) : vr :=
+    match fs with
+    | [] => ROk
+    | fd :: r => if beqb (f_name fd) name then rand (chk fd) (fun _ => go r) else go r
+    end.
+Definition ralls {X} (p : X -> vr) : list X -> vr :=
+  fix go (l : list X) : vr := match l with [] => ROk | x :: t => rand (p x) (fun _ => go t) end.
+
 (** validateValue.  [home]: the file being validated (identifiers are looked up there);
     [sc]: the scope the type is read in.  A nil element type would be dereferenced. *)
 Fixpoint check_value (fuel : nat) (home : vscope) (what : bytes) (sc : vscope) (t : ptype) (v : cvalue) {struct v} : vr :=
@@ -503,55 +517,35 @@ Fixpoint check_value (fuel : nat) (home : vscope) (what : bytes) (sc : vscope) (
            end
     | CList l =>
       if beqb n s_list || beqb n s_set then
-        (fix elems (l : list cvalue) : vr :=
-           match l with
-           | [] => ROk
-           | x :: r =>
-             match t' with
-             | PType _ _ (Some et) _ => rand (check_value fuel home what sc' et x) (fun _ => elems r)
-             | PType _ _ None _ => RPanic
-             end
-           end) l
+        ralls (fun x => match elem_type t' with
+                       | Some et => check_value fuel home what sc' et x
+                       | None => RPanic
+                       end) l
       else mismatch
     | CMap l =>
       if beqb n s_map then
-        (fix pairs (l : list (cvalue * cvalue)) : vr :=
-           match l with
-           | [] => ROk
-           | (k, x) :: r =>
-             match t' with
-             | PType _ (Some kt) vt _ =>
-               rand (check_value fuel home what sc' kt k) (fun _ =>
-               match vt with
-               | Some et => rand (check_value fuel home what sc' et x) (fun _ => pairs r)
-               | None => RPanic
-               end)
-             | PType _ None _ _ => RPanic
-             end
-           end) l
+        ralls (fun kv => match key_type t' with
+                        | None => RPanic
+                        | Some kt =>
+                          rand (check_value fuel home what sc' kt (fst kv)) (fun _ =>
+                          match elem_type t' with
+                          | Some et => check_value fuel home what sc' et (snd kv)
+                          | None => RPanic
+                          end)
+                        end) l
       else
         match find_struct_like sc' n with
         | None => mismatch
         | Some (d, s) =>
-          (fix pairs (l : list (cvalue * cvalue)) : vr :=
-             match l with
-             | [] => ROk
-             | (k, x) :: r =>
-               let fields (name : bytes) :=
-                   (fix fl (fs : list field) : vr :=
-                      match fs with
-                      | [] => pairs r
-                      | fd :: fr' =>
-                        if beqb (f_name fd) name then rand (check_value fuel home what d (f_type fd) x) (fun _ => fl fr')
-                        else fl fr'
-                      end) (s_fields s) in
-               match k with
-               | CStr name => fields name
-               | CIdent name => fields name
-               | _ => RErr (cat [T "Invalid value for "; what; T ": expected a field name of "; type_string t';
-                                 T ", got "; describe k])
-               end
-             end) l
+          ralls (fun kv =>
+                  let fields (name : bytes) :=
+                      fields_named (fun fd => check_value fuel home what d (f_type fd) (snd kv)) name (s_fields s) in
+                  match fst kv with
+                  | CStr name => fields name
+                  | CIdent name => fields name
+                  | k => RErr (cat [T "Invalid value for "; what; T ": expected a field name of "; type_string t';
+                                    T ", got "; describe k])
+                  end) l
         end
     | COther => mismatch
     end
@@ -576,7 +570,9 @@ Definition check_values (fuel : nat) (f : frugal) (incs : list (bytes * ftree)) 
              (fr_services f))).
 
 (** * Frugal.validate *)
-Definition cvalidate (fuel : nat) (f : frugal) (incs : list (bytes * ftree)) : vr :=
+(** everything but the last pass: names, namespaces, includes, constants (type and top-level
+    identifier), typedefs, structs, services, scopes *)
+Definition cvalidate_decls (fuel : nat) (f : frugal) (incs : list (bytes * ftree)) : vr :=
   let rf := reduce f incs in
   rand (check_services [] (fr_services f)) (fun _ =>
   rand (check_scopes [] (fr_scopes f)) (fun _ =>
@@ -588,8 +584,11 @@ Definition cvalidate (fuel : nat) (f : frugal) (incs : list (bytes * ftree)) : v
   rand (rall (check_struct rf) (fr_unions f)) (fun _ =>
   rand (rall (check_struct rf) (fr_exceptions f)) (fun _ =>
   rand (rall (check_service fuel f incs rf) (fr_services f)) (fun _ =>
-  rand (rall (check_scope rf) (fr_scopes f)) (fun _ =>
-        check_values fuel f incs))))))))))).
+        rall (check_scope rf) (fr_scopes f))))))))))).
+
+(** the last pass, validateValues, runs once the declarations have been validated *)
+Definition cvalidate (fuel : nat) (f : frugal) (incs : list (bytes * ftree)) : vr :=
+  rand (cvalidate_decls fuel f incs) (fun _ => check_values fuel f incs).
 
 (** fuel that is always enough for [cvalidate] (Proofs): the typedefs of the file and of what
     it includes, the number of files, the services of the file *)
